@@ -7,23 +7,19 @@ Section C01.
 
   (** known-finding classes (decidable input patterns; see Properties/C01.v) *)
 
-  (** an ancestor conftest.py binds the name more than once (the resolver returns
-      its FIRST binding, pytest uses the last) *)
-  Definition K_conftest_redefinition (s : index) (F : path) (n : string) : bool :=
-    existsb (fun dir => 1 <? len (defs_in s (conftest_py :: dir) n)) (ancestors (tl F)).
-
   (** the cascade stops at a conftest that merely IMPORTS the name and hands out the
       first-registered same-named definition, which that conftest does not import *)
+  Definition stop_at (s : index) (flt : fdef -> bool) (n : string) (dirs : list path) : option (path * fdef) :=
+    first_some (fun dir =>
+                  match conftest_step dk roots s flt (defs_named s n) n dir with
+                  | Some d => Some (dir, d)
+                  | None => None
+                  end) dirs.
+
   Definition import_stop (s : index) (flt : fdef -> bool) (F : path) (n : string) : option (path * fdef) :=
-    let dn := defs_named s n in
-    match max_by_key d_line (filter (fun d => path_eqb (d_file d) F && flt d) dn) with
+    match max_by_key d_line (filter (fun d => path_eqb (d_file d) F && flt d) (defs_named s n)) with
     | Some _ => None
-    | None =>
-        first_some (fun dir =>
-                      match conftest_step dk roots s flt dn n dir with
-                      | Some d => Some (dir, d)
-                      | None => None
-                      end) (ancestors (tl F))
+    | None => stop_at s flt n (ancestors (tl F))
     end.
 
   Definition K_import_provenance (s : index) (ex : option fdef) (F : path) (n : string) : bool :=
@@ -35,8 +31,17 @@ Section C01.
     | None => false
     end.
 
-  Definition known_C01 (s : index) (F : path) (n : string) : bool :=
-    K_conftest_redefinition s F n || K_import_provenance s None F n.
+  (** the hypothesis [imports_complete] of the C01 theorems, decided on a concrete state *)
+  Definition imports_completeb (s : index) (F : path) (n : string) : bool :=
+    forallb (fun dir =>
+               forallb (fun d => implb (import_class dk roots s (conftest_py :: dir) n d)
+                                       (is_imported dk roots s n (conftest_py :: dir)))
+                       (defs_named s n))
+            (ancestors (tl F)).
+
+  (** class bits: 16 = import provenance *)
+  Definition known_C01 (s : index) (F : path) (n : string) : N :=
+    bit (K_import_provenance s None F n) 16.
 
   Definition judge_C01 (s : index) (q : query) : N :=
     match q with
@@ -50,8 +55,9 @@ Section C01.
                 let n := u_name u in
                 bit (negb (opt_def_eqb m ans)) 1
                 + bit (negb (allowed dk roots s F n ans)) 2
-                + bit (known_C01 s F n) 4
+                + known_C01 s F n
                 + bit (negb (allowed dk roots s F n m)) 8
+                + bit (negb (imports_completeb s F n)) 4
             end
         | None => bit (negb (opt_def_eqb m ans)) 1 + bit (is_some ans) 2
         end
@@ -59,8 +65,9 @@ Section C01.
         let m := closest dk roots s F n in
         bit (negb (opt_def_eqb m ans)) 1
         + bit (negb (allowed dk roots s F n ans)) 2
-        + bit (known_C01 s F n) 4
+        + known_C01 s F n
         + bit (negb (allowed dk roots s F n m)) 8
+        + bit (negb (imports_completeb s F n)) 4
     | _ => bit (negb (corr dk roots s q)) 1
     end.
 
